@@ -161,7 +161,7 @@ CLAIMS = {
         "in-process) x float64/float32/int64 x whole/element-wise, exactly against the chunked integer model and against each "
         "other, including symmetry-reduced outer angles and distance matrices."),
  "C19": dict(category="other", design_ref="DESIGN.md section 5 C19",
-   technique="Lean 4: executable model of the deterministic S2 meshes (linspace, UV, equal-area, cube, hexagonal) with covering theorems for the UV mesh, the equal-area mesh and the normalized cube for every resolution; executable model of the SO(3) grids of the quaternion and haar_euler methods with covering theorems of SO(3) for every resolution up to 180 degrees; logical skeleton for fundamental-zone samples; the covering radii of fundamental-zone samples and of the cubochoric method are measured against bounds fixed in advance",
+   technique="Lean 4: executable model of the deterministic S2 meshes (linspace, UV, equal-area, cube, hexagonal) with covering theorems for the UV mesh, the equal-area mesh and the three cube meshes for every resolution; executable model of the SO(3) grids of the quaternion and haar_euler methods with covering theorems of SO(3) for every resolution up to 180 degrees; logical skeleton for fundamental-zone samples; the covering radii of fundamental-zone samples and of the cubochoric method are measured against bounds fixed in advance",
    text="NOT a proof-level claim for the whole property. Proved (Lean, all inputs): S2 - the UV mesh is defined for every "
         "legitimate input and returns unit vectors; its steps are <= the resolution (from the integer ceilings); every "
         "direction of the sphere has a mesh vector within chord (r.pi/180)/sqrt 2 (both hemispheres, offset 0, all r > 0 "
@@ -170,7 +170,10 @@ CLAIMS = {
         "it has a mesh vector within squared chord 5/4 (r.pi/180)^2 (offset 0: also after pole-duplicate removal, r >= 0.002 deg); "
         "cube meshes return unit vectors, "
         "24 steps^2 + 2 of them; the normalized cube covers the sphere within chord tan(r)/sqrt 2 for 0 < r < 90 deg and "
-        "divides by zero at 120 deg (proved, known finding); the equal-area mesh is defined for every r > 0, holds 4D(2D+1) grid "
+        "divides by zero at 120 deg (proved, known finding); the spherified-edge and spherified-corner (default) cube meshes cover "
+        "the sphere within chord sqrt2 r.pi/180 resp. 1.5 r.pi/180 for EVERY r > 0 (any odd edge function: the face lists miss no "
+        "lattice point; tan is 2- resp. 3-Lipschitz on the edge's angular range; radial projection is 1-Lipschitz outside the "
+        "unit ball); the equal-area mesh is defined for every r > 0, holds 4D(2D+1) grid "
         "nodes (D = ceil(90/r)) and covers the sphere: every direction v has a mesh vector g with v.g >= cos(pi/(4D)) - 1/(2D) "
         ">= cos(r pi/360) - r/180 (all r > 0 without pole-duplicate removal, 0.002 <= r <= 360 deg with it; cos(theta) is "
         "sampled uniformly, so the angular radius scales like sqrt r at the poles), and for hemisphere='upper'/'lower' every mesh "
@@ -184,11 +187,11 @@ CLAIMS = {
         "deg: every rotation p has a grid rotation q with |p.q| >= cos(r pi/360) sqrt(1 - r/(2(360 - r))) resp. "
         "cos(r pi/360) sqrt(1 - r/180) (the radial Hopf coordinate is sampled uniformly in sin^2, so the worst-case angle "
         "scales like sqrt r at the poles). NOT proved: the cubochoric grid, the restriction of a grid to a fundamental zone "
-        "(grid rotations outside the zone are dropped, so the SO(3) covering does not transfer), and the coverings of the spherified, "
+        "(grid rotations outside the zone are dropped, so the SO(3) covering does not transfer), and the coverings of the "
         "hexagonal and icosahedral meshes and of offset UV meshes after pole-duplicate removal: those covering radii are measured on every run "
         "against method-specific bounds fixed in advance (1.5 r, 2.2 r, 10 sqrt(r); S2 0.9 r, 5.4 sqrt(r)) - hence category "
         "'other'. The model is tied to the code by exact comparison of grid counts and 1e-12 comparison of coordinates on ~54 "
-        "awkward resolutions x all options; the proved bounds (UV, equal-area, SO(3) grids) are also evaluated on the "
+        "awkward resolutions x all options; the proved bounds (UV, equal-area, cube meshes, SO(3) grids) are also evaluated on the "
         "implementation's own grids at seeded directions and at the directions half-way between grid lines."),
  "C11": dict(category="proof", design_ref="DESIGN.md section 5 C11",
    technique="Lean 4: model of CrystalMap.__getitem__ proved to refine a set-semantics specification for every grid, mask, key and (by induction) every finite selection history; differential run of random histories",
